@@ -2,7 +2,7 @@
     arguments already hex-decoded by the OCaml driver, result printed as one
     canonical line.  The Go (and C++) drivers print the same lines from the
     implementation.  No proofs. *)
-From GFS Require Import Base Dec Regex GenRegex GenPadTables Ranges Pad FrameSet Compress Path Seq Listing.
+From GFS Require Import Base Dec Regex GenRegex GenPadTables Ranges Pad FrameSet Compress Path Seq Listing SpecRange.
 Local Open Scope Z_scope.
 
 Definition hexd (n : nat) : byte := if Nat.ltb n 10 then (48 + n)%nat else (87 + n)%nat.
@@ -78,6 +78,16 @@ Definition probe_blocks_at (bl : iranges) (idxs vals : list Z) : bytes :=
   kv "value" (join_with c_comma (map (fun i => optz (rs_value bl i)) idxs)) ++
   kl "index" (map (rs_index bl) vals) ++
   kv "has" (map (fun v => if rs_contains bl v then 49%nat else 48%nat) vals).
+
+(** what the independent spec says about a range string *)
+Definition spec_field (r : bytes) : bytes :=
+  match spec_frames r with
+  | Some l => kl "S_frames" l
+  | None => kv "S_frames" (s2b "ERR")
+  end.
+
+Definition reparse (s : bytes) : bytes :=
+  match new_frameset s with Ok f => zlist (fs_frames f) | _ => s2b "ERR" end.
 
 Definition style_arg (s : bytes) : pstyle := style_of_int (argz s).
 
@@ -176,8 +186,8 @@ Definition dispatch (args : list bytes) : bytes :=
       match rest with
       | [r] =>
         match new_frameset r with
-        | Ok f => s2b "OK" ++ kb "isfr" (is_frame_range r) ++ probe_fs (fs_blocks f)
-        | other => outcome_tag other ++ kb "isfr" (is_frame_range r)
+        | Ok f => s2b "OK" ++ kb "isfr" (is_frame_range r) ++ probe_fs (fs_blocks f) ++ spec_field r
+        | other => outcome_tag other ++ kb "isfr" (is_frame_range r) ++ spec_field r
         end
       | _ => s2b "BADARGS"
       end
@@ -198,7 +208,12 @@ Definition dispatch (args : list bytes) : bytes :=
           let nf := fs_normalize f in let iv := fs_invert f in
           s2b "OK" ++ kh "nstr" (fs_range nf) ++ kl "nframes" (fs_frames nf) ++
           kh "istr" (fs_range iv) ++ kl "iframes" (fs_frames iv) ++
-          kv "ipad" (join_with c_comma (map (fun p => hexs (fs_inverted_frame_range f p)) (zrange 0 7)))
+          kv "ipad" (join_with c_comma (map (fun p => hexs (fs_inverted_frame_range f p)) (zrange 0 7))) ++
+          kl "frames" (fs_frames f) ++
+          kv "nre" (reparse (fs_range nf)) ++ kv "ire" (match fs_range iv with [] => [c_minus] | s => reparse s end) ++
+          kv "ipadre" (join_with (59%nat) (map (fun p => match fs_inverted_frame_range f p with [] => [c_minus] | s => reparse s end) (zrange 0 7))) ++
+          kh "nnstr" (fs_range (fs_normalize nf)) ++
+          kl "S_nframes" (sort_dedup (fs_frames f)) ++ kl "S_iframes" (complement (fs_frames f))
         | other => outcome_tag other
         end
       | _ => s2b "BADARGS"
@@ -207,14 +222,16 @@ Definition dispatch (args : list bytes) : bytes :=
       match rest with
       | [l; srt; z] =>
         match frames_to_frame_range (argzl l) (negb (argz srt =? 0)) (argz z) with
-        | Ok s => s2b "OK" ++ kh "s" s
+        | Ok s => s2b "OK" ++ kh "s" s ++ kv "re" (match s with [] => [c_minus] | _ => reparse s end)
         | other => outcome_tag other
         end
       | _ => s2b "BADARGS"
       end
     else if beq op (s2b "padfr") then
       match rest with
-      | [r; p] => s2b "OK" ++ kh "s" (pad_frame_range r (argz p))
+      | [r; p] => let t := pad_frame_range r (argz p) in
+                  s2b "OK" ++ kh "s" t ++ kv "in" (reparse r) ++ kv "out" (reparse t) ++
+                  kh "again" (pad_frame_range t (argz p))
       | _ => s2b "BADARGS"
       end
     else if beq op (s2b "seq") then
